@@ -128,7 +128,7 @@ def run_1d(case, rec):
         if W and np.any(q < W):
             rec.bucket("q<W")
         Lvec = np.full(npts, L)
-        if geom == "slit(L,0)" and (case["k"]//5) % 2 == 1:
+        if geom == "slit(L,0)" and (case["k"]//10 + case["k"]) % 2 == 1:
             # slit lengths that differ from point to point (merged instrument settings), the longest at the first point
             Lvec = L*np.array([1.0, float(rng.uniform(0.5, 0.9)), float(rng.uniform(0.5, 0.9))])
             rec.bucket("slit:lengths-differ-per-point")
